@@ -151,7 +151,11 @@ public:
             }
 
             M17CXX_VERIF_QEVENT(6, 0);
-            if (empty_.wait_for(lock, timeout) == std::cv_status::timeout)
+            if (timeout == std::chrono::duration<Rep, Period>::max())
+            {
+                empty_.wait(lock);  // forever: no deadline to overflow.
+            }
+            else if (empty_.wait_for(lock, timeout) == std::cv_status::timeout)
             {
                 M17CXX_VERIF_QEVENT(9, 0);
                 return false;
@@ -198,7 +202,9 @@ public:
                 return false; 
             }
 
-            auto expiration = std::chrono::system_clock::now() + timeout;
+            const bool forever = (timeout == std::chrono::duration<Rep, Period>::max());
+            auto expiration = std::chrono::system_clock::now();
+            if (!forever) expiration += std::chrono::duration_cast<std::chrono::system_clock::duration>(timeout);
             
             while (SIZE == size_)
             {
@@ -209,7 +215,11 @@ public:
                 }
 
                 M17CXX_VERIF_QEVENT(3, 0);
-                if (full_.wait_until(lock, expiration) == std::cv_status::timeout)
+                if (forever)
+                {
+                    full_.wait(lock);   // no deadline to overflow.
+                }
+                else if (full_.wait_until(lock, expiration) == std::cv_status::timeout)
                 {
                     M17CXX_VERIF_QEVENT(8, 0);
                     return false;
